@@ -19,7 +19,7 @@ from . import c09_eval as E
 from . import c09_gen as G
 
 MANIFEST = {
-    "text": "Coq theorems about an executable model of stix2.equivalence.pattern (54 theorems, all closed under the global "
+    "text": "Coq theorems about an executable model of stix2.equivalence.pattern (62 theorems, all closed under the global "
             "context): the comparators are lawful total preorders, hence the reported relation is reflexive, symmetric and "
             "transitive and find_equivalent_patterns is the filter of the pairwise test; every pass of the normaliser "
             "(flatten, order/dedupe, absorption with its deletion loop, DNF with root-type pruning, special values, settle) "
@@ -33,8 +33,9 @@ MANIFEST = {
     "design_ref": "DESIGN.md 6/C09, Appendix A.5",
     "note": "Trusted: Coq kernel + vm_compute, the hand-written model (checked against the implementation on every run), "
             "the restated platform functions inet_aton/inet_pton/inet_ntoa/inet_ntop/int()/str.lower() (below U+0100), the "
-            "binding semantics of Spec/PatternSemantics.v.  Partial: termination of the two settle loops is relative to "
-            "fuel (equiv_never_raises_partial); IPv6 canonicalisation is a hypothesis on the interpretation "
+            "binding semantics of Spec/PatternSemantics.v.  Totality is proved (equiv_never_raises: on constructor-valid "
+            "patterns some fuel suffices and the answer does not depend on it; settle loops and both DNF recursions "
+            "terminate).  Partial: IPv6 canonicalisation is a hypothesis on the interpretation "
             "(respects_cidr6); recognition of idempotence/absorption/distribution for arbitrary sub-expressions through "
             "the whole pipeline is checked by the harness (oracle `recognise`), proved only pass by pass.  The pinned "
             "special-value pass is unsound / raises on some valid patterns: *_refuted theorems, known findings.",
@@ -733,7 +734,7 @@ def check(run):
     run.assumptions += [
         "float literals carry <= 15 significant digits (exact rational comparison = comparison of the doubles)",
         "set literals contain primitive constants only (grammar)",
-        "termination of SettleTransformer is relative to fuel (%d passes; exhaustions counted in coverage.model_fuel_exhausted)" % FUEL,
+        "the case files evaluate the model with fuel %d (termination for some fuel is proved: equiv_never_raises; exhaustions at this fuel are counted in coverage.model_fuel_exhausted)" % FUEL,
         "soundness theorems quantify over atom interpretations that are typed by object type, see a constant through its denotation (Spec/PatternSemantics.v: den_atom) and, for IPv6 only, are invariant under the address canonicalisation (respects_cidr6)",
     ]
 
